@@ -462,6 +462,9 @@ impl ChainListener for RecListener {
         let txs = self.take_decode(&mut st, block_hash, "streamed remove");
         st.backward(&txs)
     }
+    fn on_streamed_block_abort(&self) {
+        self.st.lock().unwrap().decode = None;
+    }
     fn on_push<F>(&self, f: F)
     where
         F: FnOnce(&mut dyn PushListener),
